@@ -39,6 +39,20 @@
 /// Log a fatal message and exit.
 NORETURN void Fatal(const char* msg, ...);
 
+#ifdef NINJA_VERIF
+/// Verification hooks, compiled only with -DNINJA_VERIF (see /verif/DESIGN.md).
+/// NINJA_VERIF_POINT(name) marks a point between two persistence steps at
+/// which a harness may stop the process. Inert unless a hook is installed or
+/// $VERIF_CRASH_POINT ("name" or "name:N" = N-th hit) selects the point.
+extern void (*g_ninja_verif_point_hook)(const char* name);
+/// Called by Fatal() with the formatted message before the process exits.
+extern void (*g_ninja_verif_fatal_hook)(const char* message);
+void NinjaVerifPoint(const char* name);
+#define NINJA_VERIF_POINT(name) NinjaVerifPoint(name)
+#else
+#define NINJA_VERIF_POINT(name) ((void)0)
+#endif
+
 // Have a generic fall-through for different versions of C/C++.
 #if __has_cpp_attribute(fallthrough)
 #  define NINJA_FALLTHROUGH [[fallthrough]]
